@@ -224,6 +224,8 @@ func main() {
 		}
 	case "go2lean":
 		go2lean(repo)
+	case "go2seq":
+		go2seq(repo)
 	default:
 		fail("unknown subcommand %s", os.Args[1])
 	}
